@@ -8,6 +8,8 @@ import (
 	"path/filepath"
 	"regexp"
 	"strings"
+	"sync"
+	"time"
 
 	"github.com/mimecast/dtail/verifharness/internal/vlib"
 )
@@ -251,7 +253,78 @@ func c12(r *vlib.Run) int {
 			r.Count("runs_with_selected_lines", 1)
 		}
 	})
+	if fl != nil {
+		c12Overlap(r, fl)
+	}
 	return n / 2
+}
+
+// c12Overlap: two sessions on one server use the byte-identical pattern with
+// opposite invert flags (and different context options) at the same time; the
+// server must keep applying to each request the flags it decoded for it.
+func c12Overlap(r *vlib.Run, fl *fleet) {
+	n := r.N(16, 300)
+	rng := r.Rng("overlap")
+	dir := r.Dir("c12overlap")
+	vlib.Parallel(n, 4, func(i int) {
+		mu.Lock()
+		c := c12Gen(rng)
+		mu.Unlock()
+		// a long file so that the two reads overlap
+		base := append([]string(nil), c.Lines...)
+		var lines []string
+		for len(lines) < 60000 {
+			lines = append(lines, base...)
+		}
+		c.Lines, c.FinalNL = lines, true
+		path := filepath.Join(dir, fmt.Sprintf("o%d.log", i))
+		os.WriteFile(path, []byte(strings.Join(lines, "\n")+"\n"), 0644)
+		defer os.Remove(path)
+		type side struct {
+			invert bool
+			max    int
+			res    *vlib.Result
+		}
+		sides := []*side{{invert: false, max: 0}, {invert: true, max: 0}, {invert: false, max: 7}}
+		var wg sync.WaitGroup
+		for k, sd := range sides {
+			wg.Add(1)
+			go func(k int, sd *side) {
+				defer wg.Done()
+				time.Sleep(time.Duration(k*15) * time.Millisecond)
+				args := []string{"--plain", "--files", path, "--regex", c.Pattern}
+				if sd.invert {
+					args = append(args, "--invert")
+				}
+				if sd.max > 0 {
+					args = append(args, "--max", fmt.Sprint(sd.max))
+				}
+				sd.res = runFleet(r, fl, "dgrep", args, nil)
+			}(k, sd)
+		}
+		wg.Wait()
+		r.Eval(fmt.Sprintf("overlap|%s", c.Pattern))
+		r.Count("overlapping_session_groups", 1)
+		for _, sd := range sides {
+			if sd.res.TimedOut {
+				r.Inconclusive("dgrep-watchdog")
+				continue
+			}
+			sel, _ := selection(c.Lines, c.Pattern, sd.invert)
+			want := grepModel(sel, 0, 0, sd.max)
+			var sb strings.Builder
+			for _, w := range want {
+				sb.WriteString(c.Lines[w] + "\n")
+			}
+			if sd.res.Hung || sd.res.Exit != 0 || string(sd.res.Stdout) != sb.String() {
+				fd := firstDiff(sd.res.Stdout, []byte(sb.String()))
+				r.Violation("selection-differs-with-overlapping-sessions", map[string]interface{}{"pattern": c.Pattern, "invert": sd.invert, "max": sd.max,
+					"other_sessions": "same pattern with the opposite invert flag / other options, at the same time on the same server",
+					"got_bytes":      len(sd.res.Stdout), "want_bytes": sb.Len(), "got_around": around(sd.res.Stdout, fd), "want_around": around([]byte(sb.String()), fd),
+					"exit": sd.res.Exit, "hung": sd.res.Hung})
+			}
+		}
+	})
 }
 
 // stripRemoteLoose removes the REMOTE|host|perc|count|id| prefix of every
